@@ -348,6 +348,47 @@ Theorem C03_offered_always_supported :
 Proof. exact Fallback.C03_offered_always_supported. Qed.
 Print Assumptions C03_offered_always_supported.
 
+(* degenerate configurations (a fallback that is also a main name, a fallback declared by several
+   mains): a report is still consistent with the declarations *)
+Theorem C03_report_consistent :
+  forall cfg n m fb, report cfg n = Some (m, fb) ->
+  In m (mains cfg) /\
+  match fb with
+  | Some f => f = n /\ exists fs, In (m, fs) cfg /\ In n fs
+  | None => m = n /\ ~ In n (fallbacks cfg)
+  end.
+Proof. exact Fallback.C03_report_consistent. Qed.
+Print Assumptions C03_report_consistent.
+
+(* for a well-formed configuration the hash-map iteration order (the order of the list) does not
+   influence any report *)
+Theorem C03_report_order_irrelevant :
+  forall cfg cfg' n, wf_cfg cfg -> Permutation.Permutation cfg cfg' -> report cfg' n = report cfg n.
+Proof. exact Fallback.C03_report_order_irrelevant. Qed.
+Print Assumptions C03_report_order_irrelevant.
+
+(* `protocol_codec` resolves a name to the same main protocol as `report_substream_open` *)
+Theorem C03_codec_resolves_like_report :
+  forall cfg n, resolve cfg n = option_map fst (report cfg n).
+Proof. exact Fallback.C03_codec_resolves_like_report. Qed.
+Print Assumptions C03_codec_resolves_like_report.
+
+(* the trace oracle of the fallback mode is exact on well-formed configurations: the only report
+   it accepts is the model's (so "accepted by the oracle" means "as the theorems above say") *)
+Theorem C03_fallback_oracle_exact :
+  forall cfg n r, wf_cfg cfg -> ok_rep cfg n r = true -> r = report cfg n.
+Proof. exact Fallback.C03_ok_rep_exact. Qed.
+Print Assumptions C03_fallback_oracle_exact.
+
+(* ... and it accepts the model's own trace on EVERY input (all pools, configurations - degenerate
+   and ill-formed ones included -, report lists): trace parser vs. trace encoder, canonical pool
+   indices, per-report checks, the table rows of `protocols_with_keep_alives` and the coverage
+   check. A rejected implementation trace is therefore never a quirk of the oracle's wire layer. *)
+Theorem C03_fallback_oracle_accepts_model :
+  forall case : list N, ok_fallback case (run_fallback case) = true.
+Proof. exact Fallback.ok_fallback_accepts_model. Qed.
+Print Assumptions C03_fallback_oracle_accepts_model.
+
 (* ---- non-vacuity: the byte-level system on a concrete case, one byte per read and write,
    Pending injections, listener polled first: agreement on "/b" (dialer index 1, listener index
    0) and both payloads delivered unchanged with nothing left in the pipes. *)
